@@ -24,6 +24,7 @@ type Options struct {
 	Verbose  bool
 	Findings string
 	Seed     int
+	ShowModel bool
 }
 
 func main() {
@@ -43,6 +44,7 @@ func main() {
 	fs.IntVar(&o.Par, "par", 12, "parallel obligations")
 	fs.StringVar(&o.Only, "only", "", "restrict to contracts whose key contains this string")
 	fs.BoolVar(&o.Verbose, "v", false, "verbose")
+	fs.BoolVar(&o.ShowModel, "model", false, "print input values of refuted obligations")
 	fs.StringVar(&o.Findings, "findings", "/verif/known_findings.txt", "known findings file")
 	fs.Parse(os.Args[2:])
 	if s := os.Getenv("VERIF_SEED"); s != "" {
@@ -310,6 +312,21 @@ func runCheck(o *Options) int {
 			for _, m := range g.Members {
 				if m.Verdict != "discharged" {
 					fmt.Printf("  FAILED %s [%s] %s %s\n     clause: %s\n     at %s\n", m.Name, m.Verdict, m.Backend, firstLine(m.Model), m.Text, m.Pos)
+					if m.Verdict == "refuted" && o.ShowModel {
+						var names []string
+						for n := range m.Inputs {
+							names = append(names, n)
+						}
+						sort.Strings(names)
+						var terms []*Term
+						for _, n := range names {
+							terms = append(terms, m.Inputs[n])
+						}
+						vals := getValues(m, m.Axioms, terms, names, 10)
+						for _, n := range names {
+							fmt.Printf("       %s = %s\n", n, vals[n])
+						}
+					}
 				}
 			}
 		}
